@@ -59,9 +59,10 @@ class Prog(cfgmod.Program):
     def __init__(self, facts):
         super().__init__(facts)
         self.number_hits = number_instantiated(facts)
-        if not self.number_hits:
-            for k in list(self.impls_of):
-                self.impls_of[k] = [i for i in self.impls_of[k] if "dual::enums::Number" not in i]
+        # pruned under the assumption that no function reachable from the entries instantiates a generic with Number; R20.4 then checks exactly that on the
+        # pruned reach set (if a reachable function did, the assumption — and the pruning — would be reported as violated)
+        for k in list(self.impls_of):
+            self.impls_of[k] = [i for i in self.impls_of[k] if "dual::enums::Number" not in i]
 
 
 def inventory(facts):
